@@ -101,6 +101,15 @@ Definition subset_of_one (l : list str) (w : option str) : bool :=
 
 Definition is_ok {A} (r : res A) : bool := match r with Ok _ => true | Exc _ => false end.
 
+(* the configured root is absolute, has no trailing slash and is lexically normalised *)
+Definition root_okb (root : str) : bool :=
+  starts_with [SL] root && negb (ends_with [SL] root) && eqb_str (normpath root) root.
+(* For such a root (and in file mode) an existing regular file must be served.  For any other spelling of root_dir
+   ("./x", "a/../x", "x/.", a symbolic link followed by "..") the statement of C04 is taken by its letter: the handler
+   either answers not-found without opening anything or serves exactly the file that root_dir/<path> denotes to the
+   operating system - never another one (the unchanged code answers not-found for all of them, see docs/C04.md). *)
+Definition must_serve (k : case) : bool := c_filemode (k_cfg k) || root_okb (c_target (k_cfg k)).
+
 Definition holds (k : case) (o : obs) : list string :=
   match handler_init (k_tftp k) (k_cfg k) with
   | Exc _ => if o_init o then ["init_accepts"%string] else []
@@ -121,8 +130,9 @@ Definition holds (k : case) (o : obs) : list string :=
              match table_lookup (k_table k) p with
              | None => ["oracle_missing"%string]
              | Some (FsOpened content) =>
-                 if (o_class o =? 3) && eqb_str (o_body o) content
-                    && (k_cached k || list_str_eqb (o_opened o) [p])
+                 if ((o_class o =? 3) && eqb_str (o_body o) content
+                     && (k_cached k || list_str_eqb (o_opened o) [p]))
+                    || (negb (must_serve k) && (o_class o =? 0) && is_nil (o_opened o))
                  then [] else ["serves_the_named_file"%string]
              | Some FsENOENT | Some FsEISDIR | Some FsENOTDIR | Some FsENAMETOOLONG =>
                  if o_class o =? 0 then [] else ["not_regular_is_not_found"%string]
@@ -137,12 +147,18 @@ Definition holds (k : case) (o : obs) : list string :=
 (* the hypotheses of C04_holds as a boolean (C04.Props.C04_validb_valid); every part is decidable from the case:
    current variant, lookup_no_result_action = continue, directory mode => the root is absolute, has no trailing
    slash and is normalised, and the oracle table answers for the path the model names *)
-Definition root_okb (root : str) : bool :=
-  starts_with [SL] root && negb (ends_with [SL] root) && eqb_str (normpath root) root.
 Definition validb (k : case) : bool :=
   negb (k_old232 k) && c_continue (k_cfg k) &&
   (c_filemode (k_cfg k) || root_okb (c_target (k_cfg k))) &&
   forallb (fun p => match table_lookup (k_table k) p with Some _ => true | None => false end) (wanted k).
+
+(* the checker also needs the oracle's answer for the file the request names (it differs from what the model opens
+   only when root_dir is not lexically normalised) *)
+Definition named_wanted (k : case) : list str :=
+  match handler_init (k_tftp k) (k_cfg k) with
+  | Exc _ => []
+  | Ok r => match named_file k r with Some p => [p] | None => [] end
+  end.
 
 (* ---- sx ---- *)
 Definition sxObs (o : obs) : sx :=
@@ -169,7 +185,7 @@ Definition entry (x : sx) : sx :=
   match x with
   | L [I 0%Z; tf; o2; ca; cfg; B uri] =>
       match decode_case tf o2 ca cfg uri [] with
-      | Some k => L (map sxStr (wanted k))
+      | Some k => L (map sxStr (wanted k ++ named_wanted k))
       | None => sxS "bad-case"
       end
   | L [I 1%Z; tf; o2; ca; cfg; B uri; L tbl; io] =>
